@@ -104,6 +104,12 @@ func (s *CDCStreamer) CommitHook() bool {
 	return true
 }
 
+// RollbackHook is called when a transaction is rolled back. The changes the
+// pending events describe have been undone, so the events are discarded.
+func (s *CDCStreamer) RollbackHook() {
+	s.pending.Events = make([]*command.CDCEvent, 0)
+}
+
 // Len returns the number of pending events.
 func (s *CDCStreamer) Len() int {
 	return len(s.pending.Events)
